@@ -79,7 +79,7 @@ var hangs = 0
 // guarded runs f with recover and a watchdog. outcome: ok | panic | hang.
 func guarded(f func()) (outcome string, detail string) {
 	if hangs >= 3 {
-		return "hang", "skipped after 3 hangs"
+		return "aborted", "not executed: 3 calls already hang in this process"
 	}
 	done := make(chan [2]string, 1)
 	go func() {
@@ -124,6 +124,7 @@ func execTok(seg []Ev) []Ev {
 		e := Ev{"op": "tok", "kind": kind, "opts": optList(bits), "input": cps(input)}
 		base, oc, det := tokenize(kind, 0, input)
 		e["base"] = base
+		e["outcome_base"] = oc
 		if oc == "ok" && bits != 0 {
 			var o2 [][]any
 			o2, oc, det = tokenize(kind, bits, input)
@@ -134,6 +135,9 @@ func execTok(seg []Ev) []Ev {
 		e["outcome"] = oc
 		if det != "" {
 			e["detail"] = det
+		}
+		if oc == "aborted" {
+			continue // never recorded: the case was not executed
 		}
 		out = append(out, e)
 	}
